@@ -3,6 +3,7 @@ C01 — Store capacity is never exceeded; a granted space reservation is always 
 Property theorems only; helper lemmas live in Proofs/.
 -/
 import FsVerif.Proofs.PosExtra
+import FsVerif.Proofs.BufExtra
 namespace FsVerif.Props.C01
 open FsVerif PosStore
 
@@ -34,5 +35,29 @@ theorem pos_second_test_dead {s : PosStore} (h : Reachable s) {t : Tok} (ht : t 
 /-- Non-vacuity: a reachable full store with a waiting request. -/
 example : ∃ s : PosStore, Reachable s ∧ s.cfg.cap = some 1 ∧ s.putRes.length = 1 ∧ s.putQ.length = 1 :=
   ⟨run (init { cap := some 1 }) [.reservePut 0 0, .reservePut 1 0], ⟨_, _, rfl⟩, by decide⟩
+
+
+/-! ### BufferStore / Buffer (per-item delay, FIFO and LIFO) -/
+
+/-- in transit + ready + granted-unused space reservations ≤ capacity, in every state reachable
+    while no object is stored twice at the same time -/
+theorem buf_capacity {s : BufStore} (h : BufStore.ReachD s) (c : Nat) (hc : s.cfg.cap = some c) :
+    s.transit.length + s.ready.length + s.putRes.length ≤ c := by
+  have := (BufStore.reachD_binv h).cap c hc
+  simp only [BufStore.level] at this; omega
+
+theorem buf_put_honoured {s : BufStore} (h : BufStore.ReachD s) {t : Tok} (ht : t ∈ s.putRes) (x : Item) (d : Nat) :
+    (s.step (.put t.proc t.id x d)).2 = .ok := by
+  have hi := BufStore.clearFired_core (BufStore.reachD_binv h).toCore
+  unfold BufStore.step
+  exact BufStore.put_accept x d hi.toPre ⟨t, ht, rfl, rfl⟩
+
+/-- the overflow guard in `move_to_ready_items` never fires and no undocumented exception escapes -/
+theorem buf_move_guard_dead {s : BufStore} (h : BufStore.ReachD s) :
+    s.crashed = false ∧ ∀ e ∈ s.transit, s.moveRoom e = true :=
+  ⟨(BufStore.reachD_binv h).alive, fun _ he => BufStore.moveRoom_of_transit (BufStore.reachD_binv h).toPre he⟩
+
+/-- `Buffer.occupancy()` counts in-transit and ready items -/
+theorem buf_occupancy (s : BufStore) : s.occupancy = s.transit.length + s.ready.length := rfl
 
 end FsVerif.Props.C01
